@@ -99,6 +99,8 @@ def run(repo, rep):
     rule_chain_merge_consumers(repo, rep)
     rep.clause("C13-av", "the default scaling branch of pooling-type operators dereferences the (optional) quantisation records only under a None test")
     rule_optional_quantization(repo, rep)
+    rep.clause("C13-aw", "the graph walkers and debug printers of nn_graph dereference the elements of an operator's input list (None for an absent optional operand) only under a None/truth test")
+    rule_input_holes(repo, rep)
     rep.clause("C13-au", "members of an operator's (optional) options table are read with .get() or under a membership test in the reader")
     rule_option_members_optional(repo, rep)
     rep.clause("C13-aq", "the scale check rejects a tensor if any of its scales is infinite (quantifier kept under negation)")
@@ -2514,3 +2516,38 @@ def rule_optional_quantization(repo, rep):
                                   f"`{texts[k][:60]}` dereferences `{nm}` (= <fm>.quantization, Optional): TRANSPOSE of a tensor without quantisation parameters (int32, or int8 without a record) aborts with AttributeError: 'NoneType' object has no attribute 'scale_f32'")
     if n < 2:
         raise AnalysisError(f"generate_ofm_scaling_for_pooling: {n} dereferences in branch conditions")
+
+
+def rule_input_holes(repo, rep):
+    """nn_graph's own traversals (`get_all_ops`, `visit_op` of `update_consumers`, `print_graph_with_tensors` ..) skip None entries of
+    `op.inputs` (an operator without its optional operand keeps the slot). Sibling agreement: every loop in nn_graph over `<op>.inputs`
+    that dereferences the element, or hands it to a function that does not itself test it, has a None/truth test in the loop."""
+    m = repo.mod("nn_graph")
+    n = 0
+    for q, fn in m.functions.items():
+        tolerant = set()
+        for i in ast.walk(fn):
+            if isinstance(i, ast.FunctionDef) and i.args.args:
+                a0 = i.args.args[0].arg
+                if re.search(rf"\b{a0} is None\b|\bnot {a0}\b", " ".join(str(norm(x)) for x in i.body[:1])):
+                    tolerant.add(i.name)
+        for node in ast.walk(fn):
+            if not (isinstance(node, ast.For) and isinstance(node.target, ast.Name)):
+                continue
+            t = str(norm(node.iter))
+            if not re.search(r"\bop\.inputs$", t):
+                continue
+            v = node.target.id
+            n += 1
+            deref = [x for b in node.body for x in ast.walk(b) if isinstance(x, ast.Attribute) and isinstance(x.value, ast.Name) and x.value.id == v]
+            txt = " ".join(str(norm(b)) for b in node.body)
+            guarded = bool(re.search(rf"\b{v} is not None\b|\b{v} is None\b|\bnot {v}\b|\b{v} and \b|\bif {v}\b", txt))
+            site = f"ethosu/vela/nn_graph.py:{q}"
+            if deref and not guarded:
+                rep.bad("C13-aw", site, "elements of `op.inputs` are dereferenced only under a None test",
+                        f"`{v}.{deref[0].attr}` for `{v}` in `{t}` without a None test: a CONV_2D without a bias keeps a None slot "
+                        "(--subgraph-output: AttributeError 'NoneType' object has no attribute 'values')")
+            else:
+                rep.ok("C13-aw", site, f"`for {v} in {t}`", "dereferences are under a None/truth test" if deref else "the element is only passed on")
+    if n < 3:
+        raise AnalysisError(f"nn_graph: only {n} loops over op.inputs")
